@@ -144,10 +144,8 @@ Definition receive (m : mode) (w : vwidth) (hv : bool) (cap : Z) (mm : mem) (r :
   if negb hok then Ok (r1, RErr UnableToKeepUp) else
   if len >? SCRATCH then Ok (r1, RErr InsufficientCapacity) else
   if negb (known_type ty) then Panic else
-  (* copy_from(0, buffer, ro + 8, len): two bounds checks `idx + len <= capacity`, then copy_nonoverlapping(len as usize) *)
-  s <- add32 m (ro + HL) len ;;
-  if s >? buf_len cap then Panic else
-  if len <? 0 then Crash else
+  (* copy_from(0, buffer, ro + 8, len): both bounds checks assert 0 <= idx, 0 <= len and idx + len <= capacity (64-bit sum) *)
+  if (len <? 0) || (ro + HL + len >? buf_len cap) then Panic else
   let bytes := get_bytes mm (ro + HL) (Z.to_nat len) in
   v <- do_validate m w cap mm (cursor r1) ;;
   if v then Ok (r1, RMsg ty bytes) else Ok (r1, RErr UnableToKeepUp).
